@@ -22,6 +22,7 @@ CONFIGS = [
     {"name": "ned1", "num_expanded_year_digits": 1},
     {"name": "ned3", "num_expanded_year_digits": 3},
     {"name": "basic_only", "allow_only_basic": True},
+    {"name": "assume_and_unknown", "assumed_time_zone": (5, 30), "default_to_unknown_time_zone": True},
 ]
 
 
